@@ -277,7 +277,7 @@ def decide(ctx: Ctx, cases: list[dict], cfg: str = "PBExprTrace"):
                 traces[key] = t
                 owners[key] = {"forms": [], "case": c, "errs": [o.get("err") for o in obs]}
             owners[key]["forms"].append(form)
-    verdicts = tlc.validate_traces(ctx, "PBExprTrace", cfg, list(traces.values()), chunk=1500)
+    verdicts = tlc.validate_traces(ctx, "PBExprTrace", cfg, list(traces.values()), chunk=4000)
     for key, v in verdicts.items():
         t, own = traces[key], owners[key]
         ctx.count(key, nontrivial=_interesting(t["events"]), n=0)
@@ -322,7 +322,7 @@ def run(ctx: Ctx) -> int:
     cases = cases_from_states(printed)
     n_tlc = len(cases)
     rng = random.Random(ctx.seed * 1000003 + 16)
-    rnd = random_cases(rng, 300 if tier == "quick" else 6000)
+    rnd = random_cases(rng, 300 if tier == "quick" else 4000)
     ntr = decide(ctx, cases, "PBExprTrace2" if tier == "quick" else "PBExprTrace3")
     ntr += decide(ctx, rnd, "PBExprTrace")
     ctx.extra["spellings"] = FORMS
